@@ -1336,14 +1336,14 @@ theorem sites_names : Sites Names := by
   constructor
   case tristate =>
     intro n v hv hk h1 h2
-    refine ⟨?_, ?_, ?_, ?_, fun _ => ⟨v, hv, hk, h1, h2⟩, ?_, ?_, ?_, ?_, ?_⟩ <;> intro h <;> exact absurd h (by decide)
+    refine ⟨?_, ?_, ?_, ?_, fun _ => ⟨v, hv, hk, h1, h2⟩, ?_, ?_, ?_, ?_, ?_, ?_⟩ <;> intro h <;> exact absurd h (by decide)
   case deviation =>
     intro cls s hc
     simp only [devClasses, List.mem_cons, List.not_mem_nil, or_false] at hc
     rcases hc with rfl | rfl | rfl | rfl | rfl | rfl | rfl <;>
-      (refine ⟨?_, ?_, ?_, ?_, ?_, ?_, ?_, ?_, ?_, ?_⟩ <;> intro h <;> exact absurd h (by decide))
+      (refine ⟨?_, ?_, ?_, ?_, ?_, ?_, ?_, ?_, ?_, ?_, ?_⟩ <;> intro h <;> exact absurd h (by decide))
   all_goals
     intros
-    refine ⟨?_, ?_, ?_, ?_, ?_, ?_, ?_, ?_, ?_, ?_⟩ <;> intro h <;> first | assumption | exact absurd h (by decide)
+    refine ⟨?_, ?_, ?_, ?_, ?_, ?_, ?_, ?_, ?_, ?_, ?_⟩ <;> intro h <;> first | assumption | exact absurd h (by decide)
 
 end Goyang.Lemmas.PositionsSem
